@@ -11,6 +11,7 @@ level  : partial - dask graph construction and uproot's form-to-buffer mapping (
 """
 from __future__ import annotations
 
+import json
 import warnings
 
 import numpy as np
@@ -184,6 +185,29 @@ def lazy_vs_eager(chk: core.Check, thorough: bool):
     return digi_fields
 
 
+def worker_processes(chk: core.Check, thorough: bool):
+    """the same comparison when dask computes the lazy array in worker processes (the graph is pickled to fresh interpreters)"""
+    import subprocess
+    import sys as _sys
+    fixtures = [("test_full_mc_evt_1.dst", ["TDstEvent/m_mdcTrackCol", "TDstEvent/m_emcTrackCol"]), ("test_full_mc_evt_1.rtraw", ["TDigiEvent/m_mdcDigiCol", "TMcEvent/m_mcParticleCol"])]
+    for fn, names in (fixtures if thorough else fixtures[:1] + [(fixtures[1][0], fixtures[1][1][:1])]):
+        p = core.REPO / "tests" / "data" / fn
+        if not p.exists():
+            continue
+        r = subprocess.run([core.PY, str(core.VERIF / "tools" / "checks" / "c18_child.py"), str(p)] + names, capture_output=True, text=True, timeout=900)
+        lines = [l for l in r.stdout.splitlines() if l.startswith("[")]
+        if r.returncode != 0 or not lines:
+            chk.obligation_broken("correspondence", "worker-process compute child", (r.stderr or r.stdout)[-800:])
+            return
+        for rec in json.loads(lines[-1]):
+            chk.count(1, key=f"scheduler-{fn}-{rec['branch']}-{rec['scheduler']}")
+            chk.hist("dask_scheduler", rec["scheduler"])
+            if rec["bad"]:
+                chk.failing_input(f"compute(scheduler={rec['scheduler']!r}) of a lazily read collection", {"file": fn, "branch": rec["branch"], "steps_per_file": 2, "scheduler": rec["scheduler"], "num_workers": 2},
+                                  rec["bad"], rec.get("want"), "the array obtained lazily and then computed has the same type and values as the eager one")
+                return
+
+
 def forms_vs_contents(chk: core.Check):
     """pybes3's factories: make_awkward_form mirrors make_awkward_content"""
     import awkward as ak
@@ -263,6 +287,8 @@ def main(chk: core.Check) -> int:
     chk.prove(modules=["C18", "RootTie"])
     try:
         digi_fields = lazy_vs_eager(chk, thorough) or []
+        if not [f for f in chk.failing if not f.get("finding_key")]:
+            worker_processes(chk, thorough)
         forms_vs_contents(chk)
         model_digi(chk, digi_fields)
         chk.coverage["traces_validated_against_impl"] = chk.evals
